@@ -18,6 +18,7 @@ import (
 	"strings"
 	"sync"
 	"sync/atomic"
+	"time"
 )
 
 type Config struct {
@@ -123,6 +124,14 @@ func otherFilesystem() string {
 		return ""
 	}
 	os.RemoveAll(probe)
+	// leftovers of runs that were killed
+	if entries, err := os.ReadDir(base); err == nil {
+		for _, e := range entries {
+			if info, ierr := e.Info(); ierr == nil && strings.HasPrefix(e.Name(), "verif-build-") && time.Since(info.ModTime()) > 2*time.Hour {
+				os.RemoveAll(filepath.Join(base, e.Name()))
+			}
+		}
+	}
 	return base
 }
 
